@@ -5,6 +5,7 @@ counterexample); the behaviour as a whole is NOT decided.  See DESIGN.md section
 P = {
 "C01": dict(
   decided={
+    "C01.i": "attribute type over repeated assignments: the type recorded by the first assignment and the type later assignments are compared with are the same expression",
     "C01.a": "operator dispatch table (repeat operators, assignment operators, syntactic predicates) -> Arpeggio class / multiplicity agrees with docs and with the reader in process_node",
     "C01.b": "repetition-modifier keys written by visit_repeat_modifiers are consumed by both readers; modifiers on ?/=/?= are rejected",
     "C01.c": "rule modifiers (ws/skipws) are installed only on expressions whose _parse honours them (Sequence subclasses)",
